@@ -15,7 +15,10 @@ FOREACH = [("foreach", 9, 12)]
 # pipelines of operators: `compose` (Ops/Compose.lean) against pipe!(puppets, stage, stage, …) on the real crate
 CHAINS = [("chain:map,add,1/take,2", 9, 12), ("chain:filter,mod,2,0/map,mul,3/take,1", 9, 11), ("chain:take,2/skip,1/scan,lin,2,0", 9, 11),
           ("chain:merge,2/take,1", 9, 11), ("chain:concat,2/filter,mod,2,0", 9, 11), ("chain:skip,1/filter,mod,2,1/take,2", 9, 11)]
-ALL = RELAYS + TAKES + MERGE + CONCAT + COMBINE + FLATTEN + SHARE + FROMITER + FOREACH + CHAINS
+# an operator as a MEMBER of an n-ary operator (Ops/PlugOp.lean): `at:<j>/<stage>/<n-ary>`
+AT = [("at:0/take,1/combine,2", 8, 10), ("at:1/take,1/combine,2", 8, 10), ("at:0/take,2/merge,2", 8, 10), ("at:1/skip,1/concat,2", 8, 10),
+      ("at:0/filter,mod,2,0/merge,3", 7, 9), ("at:1/take,1/concat,2", 8, 10), ("at:0/scan,lin,2,0/combine,2", 7, 9)]
+ALL = RELAYS + TAKES + MERGE + CONCAT + COMBINE + FLATTEN + SHARE + FROMITER + FOREACH + CHAINS + AT
 
 # beyond the properties' domain (concat / combine / flatten members that greet late): watched for panics only, under C17
 LATE = [("concatL:2", 9, 12), ("concatL:3", 8, 10), ("combineL:2", 8, 11), ("flattenL", 9, 12)]
